@@ -41,6 +41,13 @@ def scenarios(rng, tier):
     for ln in (0, 14, 31, 32, 33, 35, 36, 37, 41, 42):
         start('trunc_%d' % ln)
         s.classify(0, discover(M, gen=7, stations=[own, own])[:ln], fill='00')
+    # Reset: topology-wide iff the REAL destination is broadcast, whatever the Ethernet destination is
+    for ed in (BCAST, own, mac(77)):
+        for rd in (BCAST, own, mac(77), bytes([0xFF] * 5 + [0xFE])):
+            for tos in (0, 1, 2):
+                start('reset_%s_%s_%d' % (ed.hex()[:4], rd.hex()[-4:], tos))
+                s.classify(0, generic(8, tos, M, rng.choice([M, mac(5)]), ed, rd, seq=rng.randrange(65536)), fill=rng.choice(['00', 'ff']))
+                s.classify(0, generic(1, tos, M, M, ed, rd, seq=0, body=bytes(14)), fill='ff')
     for opc in range(256):
         if opc % 16 == 0: start('opc_%d' % opc)
         rd = BCAST if rng.random() < 0.5 else own
